@@ -104,6 +104,33 @@ def impl_run(case):
     st = craw.settings(case["settings"])
     wp = comp.ctypes.data_as(C.POINTER(C.c_double))
     out = {"d": res["d"], "slices": [], "guard_ok": True}
+    # the compact array read through the layout of CWps.v (matrix column = slot + shift(row - 1)): the content the
+    # traceback theorems (CTrace.v) assume -- band cells AND the filled slots around them
+    pp = L.dtw_wps_parts(r, c, C.byref(st))
+    width = int(pp.width)
+
+    def shift(ri):
+        if ri < pp.ri2:
+            return 0
+        if ri < pp.ri3:
+            return 1 + ri - int(pp.ri2)
+        return 0 if pp.ri2 == pp.ri3 else int(pp.ri3 - pp.ri2)
+    flat = comp.reshape(-1)
+    view, beyond = [], []
+    if flat.size == (r + 1) * width:
+        for i in range(r + 1):
+            sh = shift(i - 1)
+            for sl in range(width):
+                v = float(flat[i * width + sl])
+                j = sl + sh
+                if j <= c:
+                    view.append([i, j, v])
+                else:
+                    beyond.append([i, sl, v])
+        out["layout_view"] = view
+        out["layout_beyond"] = beyond
+    else:
+        out["layout_size"] = [int(flat.size), (r + 1) * width]
     # red zones as large as the whole matrix: a stray write of the slice routine (finding F17, since fixed) lands in
     # the zone and is reported for THIS case instead of corrupting the heap of the worker
     ZONE = (r + 2) * (c + 2)
@@ -226,6 +253,25 @@ def judge(case, got, exp):
         return judge_matrix(case, exp, m)
     if not g.get("guard_ok", True):
         return {"kind": "slice-out-of-bounds-write", "slices": [s["sl"] for s in g["slices"] if not s["guard"]]}
+    if "layout_size" in g:
+        return {"kind": "compact-array-size", "got": g["layout_size"]}
+    if "layout_view" in g:
+        # overlay the compact content on the expected matrix and judge it with the same freedoms
+        E = exp["m"]
+        G = [[_transform(E[i][j], case) for j in range(case["c"] + 1)] for i in range(case["r"] + 1)]
+        seen = set()
+        for i, j, v in g["layout_view"]:
+            if (i, j) in seen:
+                return {"kind": "layout:two-slots-for-one-cell", "cell": [i, j]}
+            seen.add((i, j))
+            G[i][j] = v
+        mm = judge_matrix(case, exp, G, allow_marks=True)
+        if mm is not None and mm["kind"] != "marks-wrong":
+            mm["kind"] = "layout:" + mm["kind"]
+            return mm
+        for i, sl, v in g["layout_beyond"]:
+            if v != math.inf:
+                return {"kind": "layout:slot-beyond-last-column-not-inf", "row": i, "slot": sl, "got": v}
     for k, s in enumerate(g["slices"]):
         rb, re, cb, ce = s["sl"]
         mm = judge_matrix(case, exp, s["m"], rb, cb, allow_marks=True)
